@@ -49,6 +49,7 @@ def run(patch, props):
     if rc:
         print("PATCH DOES NOT APPLY TO /repo", out)
         return
+    sh("rm -rf /verif/.cache/evidence_keep && cp -r /verif/evidence /verif/.cache/evidence_keep")
     try:
         for p in props:
             rc, out = sh("./check %s --tier quick 2>&1 | grep -E '^VIOLATION|^KNOWN|^\\[C' " % p, cwd="/verif")
@@ -66,6 +67,8 @@ def run(patch, props):
     finally:
         sh("git -C /repo checkout -- .")
         sh("rm -f /verif/replays/*.json")
+        # evidence is only ever kept from runs on the unchanged tree
+        sh("cp /verif/.cache/evidence_keep/*.json /verif/evidence/")
 
 
 if __name__ == "__main__":
